@@ -18,4 +18,5 @@ def rules(ctx, tier):
         lambda: search.rule_sort(ctx),
         lambda: search.rule_finderroute(ctx),
         lambda: mutation.rule_mut(ctx),
+        lambda: forward.rule_fwd_assid(ctx),
     ]
